@@ -76,7 +76,7 @@ def collect_sites(orig_ir, repo_prefix="glass-easel-template-compiler/src/", fil
                     cur = n
                     while id(cur) in pm:
                         cur = pm[id(cur)]
-                        if cur.get("k") == "struct" and cur["path"].endswith("TmplError"):
+                        if cur.get("k") == "struct" and (cur["path"].endswith("TmplError") or (cur["path"] == "Self" and str(impl_ty or "").endswith("TmplError"))):
                             skip = True
                         if cur.get("k") == "call" and sir.call_name(cur) in ("gen_lit_str",):
                             skip = True
